@@ -421,8 +421,7 @@ func (r *Runner) initialHeapTerm(entry *entrySnap, key string) Term {
 
 func (r *Runner) finish(st *State, f *Frame, rv []Val, pos token.Pos) {
 	if r.specRec != nil {
-		r.specRec.record(st)
-		return
+		return // a path that returns does not reach the loop head again
 	}
 	sp := f.spec
 	if sp == nil {
